@@ -194,10 +194,12 @@ trie_node_split(struct trie *t, struct trie_node *cur_node, int seg_cnt)
 	}
 	split_node->value = cur_node->value;
 	split_node->key = cur_node->key;
-	split_node->refcount = cur_node->refcount;
+	/* the entry takes its own reference along; references held by
+	 * iterators positioned on cur_node stay where they point */
+	split_node->refcount = (cur_node->value != NULL) ? 1 : 0;
+	cur_node->refcount -= split_node->refcount;
 	cur_node->value = NULL;
 	cur_node->key = NULL;
-	cur_node->refcount = 0;
 	/* move notifier list to split */
 	tmp = split_node->notifier_head;
 	split_node->notifier_head = cur_node->notifier_head;
